@@ -1,8 +1,645 @@
-// Package c10: stub (property not built yet).
 package c10
 
-import "verifharness/hk"
+import (
+	"bytes"
+	"fmt"
+	"hash/fnv"
+	"os"
+	"path/filepath"
+	"sort"
+	"strconv"
+	"strings"
 
-func NewExec() func(w []string) string { return func([]string) string { return "bad-op" } }
+	"perkeep.org/pkg/sorted"
+	"perkeep.org/pkg/sorted/buffer"
+	"perkeep.org/pkg/sorted/kvfile"
 
-func Run(r *hk.Run) { r.Note("not built yet") }
+	"verifharness/hk"
+)
+
+// op is one generated operation (before it is rendered as a protocol line).
+type op struct {
+	name string // get set del batch find flush reopen dump
+	a, b []byte
+	muts []mut
+}
+
+func (o op) line() string {
+	switch o.name {
+	case "get", "del":
+		return o.name + " " + encTok(o.a)
+	case "set", "find":
+		return o.name + " " + encTok(o.a) + " " + encTok(o.b)
+	case "batch":
+		var sb strings.Builder
+		sb.WriteString("batch")
+		for _, m := range o.muts {
+			if m.del {
+				sb.WriteString(" d " + encTok(m.k))
+			} else {
+				sb.WriteString(" s " + encTok(m.k) + " " + encTok(m.v))
+			}
+		}
+		return sb.String()
+	}
+	return o.name
+}
+
+// ---- the property's own oracle: a reference map ----
+
+type refMap map[string]string
+
+func sizesOK(k, v []byte) bool { return len(k) <= sorted.MaxKeySize && len(v) <= sorted.MaxValueSize }
+
+func (m refMap) set(k, v []byte) {
+	if sizesOK(k, v) {
+		m[string(k)] = string(v)
+	}
+}
+
+func (m refMap) rows(s, e []byte) []string {
+	var ks []string
+	for k := range m {
+		if k >= string(s) && (len(e) == 0 || k < string(e)) {
+			ks = append(ks, k)
+		}
+	}
+	sort.Strings(ks)
+	out := make([]string, len(ks))
+	for i, k := range ks {
+		out[i] = encTok([]byte(k)) + "=" + encTok([]byte(m[k]))
+	}
+	return out
+}
+
+// expected answer of a store that has the property, given the reference map (which it updates)
+func (m refMap) expect(o op, impl string) string {
+	isBuf := impl == "buffer"
+	switch o.name {
+	case "get":
+		if v, ok := m[string(o.a)]; ok {
+			return "v " + encTok([]byte(v))
+		}
+		return "notfound"
+	case "set":
+		m.set(o.a, o.b)
+		return "ok"
+	case "del":
+		delete(m, string(o.a))
+		return "ok"
+	case "batch":
+		for _, mu := range o.muts {
+			if mu.del {
+				delete(m, string(mu.k))
+			} else {
+				m.set(mu.k, mu.v)
+			}
+		}
+		return "ok"
+	case "find":
+		return showRows("rows", m.rows(o.a, o.b))
+	case "flush":
+		if isBuf {
+			return "ok"
+		}
+		return "na"
+	case "reopen":
+		if impl == "mem" {
+			return "na"
+		}
+		return "ok"
+	}
+	return ""
+}
+
+// overlayOfDump parses a `dump` answer and returns the rows of (buffer shadowing backing).
+func overlayOfDump(out string) ([]string, bool) {
+	parts := strings.Split(out, " | ")
+	if len(parts) != 2 {
+		return nil, false
+	}
+	m := map[string]string{}
+	for i := 1; i >= 0; i-- { // backing first, buffer overrides
+		f := strings.Fields(parts[i])
+		if len(f) < 2 || (i == 0 && f[0] != "buf") || (i == 1 && f[0] != "back") {
+			return nil, false
+		}
+		for _, kv := range f[2:] {
+			k, v, ok := strings.Cut(kv, "=")
+			if !ok {
+				return nil, false
+			}
+			kb, ok1 := decTok(k)
+			vb, ok2 := decTok(v)
+			if !ok1 || !ok2 {
+				return nil, false
+			}
+			m[string(kb)] = string(vb)
+		}
+	}
+	return refMap(m).rows(nil, nil), true
+}
+
+// ---- generator ----
+
+type gen struct {
+	r    *hk.Run
+	rnd  *hk.Rand
+	in   *interp
+	ex   func([]string) string
+	ref  refMap
+	impl string
+}
+
+var alphabet = []byte{0x00, 0x01, '|', ':', 'a', 'b', '-', 0x7f, 0x80, 0xfe, 0xff}
+
+func (g *gen) randBytes(n int) []byte {
+	b := make([]byte, n)
+	for i := range b {
+		if g.rnd.Chance(85) {
+			b[i] = alphabet[g.rnd.Intn(len(alphabet))]
+		} else {
+			b[i] = byte(g.rnd.U64())
+		}
+	}
+	return b
+}
+
+func cat(bs ...[]byte) []byte { return bytes.Join(bs, nil) }
+
+// keyPool: a small universe so that keys collide, built around one base with the separators of
+// the index rows, 0x00/0xff neighbours, mutual prefixes, the empty key and keys at the size limit.
+func (g *gen) keyPool(big bool) [][]byte {
+	base := g.randBytes(1 + g.rnd.Intn(3))
+	pool := [][]byte{
+		{}, base, cat(base, []byte{0}), cat(base, []byte{0xff}), cat(base, []byte("|")), cat(base, []byte(":")),
+		base[:len(base)-1], cat(base, base), cat(base, []byte{0, 0}), cat(base, []byte{0xff, 0xff}),
+		{0}, {0xff}, {0xff, 0xff}, []byte("|"), []byte(":"),
+		[]byte("claim|sha224-" + strconv.Itoa(g.rnd.Intn(3)) + "|"), []byte("have:sha224-" + strconv.Itoa(g.rnd.Intn(3))),
+		[]byte("meta:sha224-0"), []byte("meta:sha224-0|x"),
+	}
+	for i := 0; i < 3; i++ {
+		pool = append(pool, g.randBytes(1+g.rnd.Intn(4)))
+	}
+	if big {
+		fill := alphabet[g.rnd.Intn(len(alphabet))]
+		k767 := bytes.Repeat([]byte{fill}, sorted.MaxKeySize)
+		k768 := bytes.Repeat([]byte{fill}, sorted.MaxKeySize+1)
+		k767b := append(bytes.Repeat([]byte{fill}, sorted.MaxKeySize-1), fill^1)
+		k768b := cat(base, bytes.Repeat([]byte{0xff}, sorted.MaxKeySize+1-len(base)))
+		k767c := cat(base, bytes.Repeat([]byte{0x00}, sorted.MaxKeySize-len(base)))
+		pool = append(pool, k767, k768, k767b, k768b, k767c, k767[:sorted.MaxKeySize-1])
+	}
+	return pool
+}
+
+func (g *gen) value(big bool) []byte {
+	switch x := g.rnd.Intn(100); {
+	case x < 12:
+		return nil
+	case x < 70:
+		return g.randBytes(1 + g.rnd.Intn(6))
+	case x < 80:
+		return bytes.Repeat([]byte{byte(g.rnd.U64())}, 8+g.rnd.Intn(40))
+	case x < 90 || !big:
+		return g.randBytes(10 + g.rnd.Intn(60))
+	}
+	f := byte(g.rnd.U64())
+	switch g.rnd.Intn(6) {
+	case 0:
+		return bytes.Repeat([]byte{f}, sorted.MaxValueSize)
+	case 1:
+		return bytes.Repeat([]byte{f}, sorted.MaxValueSize+1)
+	case 2:
+		return cat(g.randBytes(3), bytes.Repeat([]byte{f}, sorted.MaxValueSize-3))
+	case 3:
+		return cat(bytes.Repeat([]byte{f}, sorted.MaxValueSize-2), g.randBytes(3))
+	case 4:
+		return bytes.Repeat([]byte{f}, sorted.MaxValueSize-1)
+	default:
+		if g.r.Thorough() && g.rnd.Chance(30) {
+			return g.rnd.Bytes(sorted.MaxValueSize + g.rnd.Intn(2)) // incompressible
+		}
+		return bytes.Repeat([]byte{0}, sorted.MaxValueSize+g.rnd.Intn(2))
+	}
+}
+
+func (g *gen) bound(pool [][]byte) []byte {
+	switch g.rnd.Intn(10) {
+	case 0, 1:
+		return nil
+	case 2:
+		k := pool[g.rnd.Intn(len(pool))]
+		return cat(k, []byte{0})
+	case 3:
+		k := pool[g.rnd.Intn(len(pool))]
+		if len(k) > 0 {
+			return k[:len(k)-1]
+		}
+		return k
+	case 4:
+		return g.randBytes(1 + g.rnd.Intn(2))
+	}
+	return pool[g.rnd.Intn(len(pool))]
+}
+
+// scenario generates one op sequence; it is then run on every implementation.
+func (g *gen) scenario(n int, big bool) []op {
+	pool := g.keyPool(big)
+	key := func() []byte { return pool[g.rnd.Intn(len(pool))] }
+	var ops []op
+	for i := 0; i < n; i++ {
+		switch x := g.rnd.Intn(100); {
+		case x < 30:
+			ops = append(ops, op{name: "set", a: key(), b: g.value(big)})
+		case x < 42:
+			ops = append(ops, op{name: "get", a: key()})
+		case x < 54:
+			ops = append(ops, op{name: "del", a: key()})
+		case x < 68:
+			var ms []mut
+			for j, k := 0, g.rnd.Intn(7); j < k; j++ {
+				mk := key()
+				if j > 0 && g.rnd.Chance(35) {
+					mk = ms[g.rnd.Intn(len(ms))].k // the same key again inside the batch
+				}
+				if g.rnd.Chance(35) {
+					ms = append(ms, mut{del: true, k: mk})
+				} else {
+					ms = append(ms, mut{k: mk, v: g.value(big)})
+				}
+			}
+			ops = append(ops, op{name: "batch", muts: ms})
+		case x < 88:
+			ops = append(ops, op{name: "find", a: g.bound(pool), b: g.bound(pool)})
+		case x < 93:
+			ops = append(ops, op{name: "flush"})
+		case x < 97:
+			ops = append(ops, op{name: "reopen"})
+		default:
+			ops = append(ops, op{name: "dump"})
+		}
+	}
+	// every case ends by reading everything back, after a close/reopen as well
+	ops = append(ops, op{name: "find"}, op{name: "reopen"}, op{name: "find"})
+	for _, k := range pool {
+		if g.rnd.Chance(40) {
+			ops = append(ops, op{name: "get", a: k})
+		}
+	}
+	return ops
+}
+
+func short(s string) string {
+	if len(s) > 300 {
+		return s[:300] + "…"
+	}
+	return s
+}
+
+// raw sends one line to the implementation and records it for the model.
+func (g *gen) raw(line string) string {
+	out := g.ex(strings.Fields(line))
+	g.r.Op(line, out)
+	return out
+}
+
+// do executes one generated op on the implementation, records it, and evaluates the oracle.
+func (g *gen) do(o op) {
+	r := g.r
+	if g.impl == "buffer" && o.name == "find" {
+		g.mergeHits(o)
+	}
+	g.sizeHits(o)
+	line := o.line()
+	out := g.raw(line)
+	if o.name == "dump" {
+		if g.impl != "buffer" {
+			if out != "na" {
+				r.Fail(g.impl+":dump", "dump on a non-buffer", "na", short(out), r.CaseOps())
+			}
+			return
+		}
+		rows, ok := overlayOfDump(out)
+		want := showRows("rows", g.ref.rows(nil, nil))
+		if !ok || showRows("rows", rows) != want {
+			r.Fail("buffer:dump-overlay", "buffer shadowing backing store differs from the reference map", short(want), short(out), r.CaseOps())
+		}
+		return
+	}
+	want := g.ref.expect(o, g.impl)
+	if out != want {
+		r.Fail(g.impl+":"+o.name, "answer differs from the reference map: "+short(line), short(want), short(out), r.CaseOps())
+	}
+	switch o.name {
+	case "batch":
+		r.Hit("batch:" + g.impl)
+	case "reopen":
+		if out == "ok" {
+			r.Hit("reopen:" + g.impl)
+		}
+	case "flush":
+		if out == "ok" {
+			r.Hit("flush:buffer")
+		}
+	}
+}
+
+// mergeHits classifies what the two-way merge iterator of the buffer is about to see.
+func (g *gen) mergeHits(o op) {
+	if g.in.bufKV == nil {
+		return
+	}
+	a, _ := scan(g.in.bufKV.Find(string(o.a), string(o.b)))
+	b, _ := scan(g.in.backKV.Find(string(o.a), string(o.b)))
+	keysOf := func(rows []string) map[string]bool {
+		m := map[string]bool{}
+		for _, r := range rows {
+			k, _, _ := strings.Cut(r, "=")
+			m[k] = true
+		}
+		return m
+	}
+	ka, kb := keysOf(a), keysOf(b)
+	switch {
+	case len(a) > 0 && len(b) > 0:
+		g.r.Hit("merge:both-sides")
+	case len(a) > 0:
+		g.r.Hit("merge:buffer-only")
+	case len(b) > 0:
+		g.r.Hit("merge:backing-only")
+	default:
+		g.r.Hit("merge:empty")
+	}
+	for k := range ka {
+		if kb[k] {
+			g.r.Hit("merge:same-key-both-sides")
+			break
+		}
+	}
+	if (ka["-"] && len(b) > 0) || (kb["-"] && len(a) > 0) {
+		g.r.Hit("merge:empty-key-vs-other-side")
+	}
+}
+
+func (g *gen) sizeHits(o op) {
+	one := func(k, v []byte, where string) {
+		switch {
+		case len(k) == sorted.MaxKeySize+1:
+			g.r.Hit("sizeguard:" + where + ":key768-skipped")
+		case len(k) == sorted.MaxKeySize:
+			g.r.Hit("sizeguard:" + where + ":key767-kept")
+		}
+		switch {
+		case len(v) == sorted.MaxValueSize+1:
+			g.r.Hit("sizeguard:" + where + ":value63001-skipped")
+		case len(v) == sorted.MaxValueSize:
+			g.r.Hit("sizeguard:" + where + ":value63000-kept")
+		}
+	}
+	switch o.name {
+	case "set":
+		one(o.a, o.b, "set")
+	case "batch":
+		for _, m := range o.muts {
+			if !m.del {
+				one(m.k, m.v, "batch")
+			}
+		}
+	}
+}
+
+type implCfg struct {
+	impl string
+	max  string
+}
+
+func hashOps(ops []op) string {
+	h := fnv.New64a()
+	for _, o := range ops {
+		h.Write([]byte(o.line()))
+		h.Write([]byte{'\n'})
+	}
+	return strconv.FormatUint(h.Sum64(), 16)
+}
+
+func nontrivial(ops []op) bool {
+	muts, reads := 0, 0
+	for _, o := range ops {
+		switch o.name {
+		case "set", "del", "batch":
+			muts++
+		case "get", "find":
+			reads++
+		}
+	}
+	return muts >= 2 && reads >= 2
+}
+
+// runCase runs one op sequence on one implementation as one case.
+func (g *gen) runCase(label string, c implCfg, ops []op) {
+	r := g.r
+	r.Case(label + " " + c.impl + c.max)
+	g.in = &interp{}
+	liveSwap(g.in)
+	g.ex = func(w []string) string { return hk.Guard(func() string { return g.in.exec(w) }) }
+	g.ref = refMap{}
+	g.impl = c.impl
+	open := "open " + c.impl
+	if c.impl == "buffer" {
+		open += " " + c.max
+	}
+	if out := g.raw(open); out != "ok" {
+		r.Fail(c.impl+":open", "cannot open", "ok", out, r.CaseOps())
+		return
+	}
+	for _, o := range ops {
+		g.do(o)
+	}
+	if nontrivial(ops) {
+		r.Distinct(c.impl + c.max + ":" + hashOps(ops))
+	}
+}
+
+// liveSwap makes in the process's live interpreter (closing the previous one and its files).
+func liveSwap(in *interp) {
+	Cleanup()
+	liveMu.Lock()
+	live = in
+	liveMu.Unlock()
+}
+
+var malformed = []string{
+	"open", "open foo", "open buffer", "open buffer x", "open buffer -0", "open buffer 01", "open buffer 1234567890",
+	"open mem 1", "open buffer 1 2", "get", "get zz", "get AB", "get 6", "get 61 62", "set 61", "set 61 62 63",
+	"find 61", "find", "del", "batch s 61", "batch x", "batch d", "batch s 61 62 d", "batch d 61 s 62", "flush 1",
+	"reopen now", "dump 1", "frob", "frob 61", "get 6*3", "get 61*0", "get 61*100001", "get 61*03", "get 61+",
+	"get +61", "get 61++62", "get -+61", "get 61*3*2", "get 6161*3", "get 61*", "get *3", "get 61*3+", "get --",
+	"get 61*1000000", "get 61*-1", "get 61*3+zz", "GET 61", "Get 61", "set 61 6G",
+	// well-formed ones: noopen before open, a real answer after
+	"get 61*3", "get 61*100000", "get 61+62*2+63", "set 61 62*9+63", "get 61", "find - -", "batch", "batch d 61",
+	"flush", "reopen", "dump", "del -",
+}
+
+func (g *gen) malformedCase(c implCfg) {
+	r := g.r
+	r.Case("malformed " + c.impl + c.max)
+	g.in = &interp{}
+	liveSwap(g.in)
+	g.ex = func(w []string) string { return hk.Guard(func() string { return g.in.exec(w) }) }
+	for _, l := range malformed {
+		out := g.raw(l)
+		if out != "bad-op" && out != "noopen" {
+			r.Fail("protocol:before-open", "an op before open was executed: "+l, "bad-op|noopen", out, r.CaseOps())
+		}
+	}
+	open := "open " + c.impl
+	if c.impl == "buffer" {
+		open += " " + c.max
+	}
+	g.raw(open)
+	g.raw("open mem") // a second open is refused
+	for _, l := range malformed {
+		g.raw(l)
+	}
+	// random corruptions of valid lines (ASCII only; the two sides split words on spaces)
+	const junk = "0123456789abcdefgxG*+-= "
+	valid := []string{"set 6162 63*9", "get 6162", "find 61 62", "batch s 61 62 d 63", "del 61+62*8", "open buffer 10"}
+	n := 150
+	if r.Thorough() {
+		n = 1500
+	}
+	for i := 0; i < n; i++ {
+		b := []byte(valid[g.rnd.Intn(len(valid))])
+		for k := 0; k <= g.rnd.Intn(2); k++ {
+			switch g.rnd.Intn(3) {
+			case 0:
+				b[g.rnd.Intn(len(b))] = junk[g.rnd.Intn(len(junk))]
+			case 1:
+				p := g.rnd.Intn(len(b) + 1)
+				b = append(b[:p:p], append([]byte{junk[g.rnd.Intn(len(junk))]}, b[p:]...)...)
+			default:
+				if len(b) > 1 {
+					p := g.rnd.Intn(len(b))
+					b = append(b[:p:p], b[p+1:]...)
+				}
+			}
+		}
+		l := strings.TrimSpace(string(b))
+		if l == "" || strings.HasPrefix(l, "#") {
+			continue
+		}
+		g.raw(l)
+	}
+	r.Hit("malformed-lines")
+}
+
+// Run generates the C10 cases.
+func Run(r *hk.Run) {
+	defer Cleanup()
+	g := &gen{r: r, rnd: r.R}
+	r.Res.Rule = "a scenario is a random sequence of get/set/del/batch/find/flush/reopen/dump over a small key universe (one random base with its 0x00/0xff/'|'/':' extensions and prefixes, the empty key, index-like keys; in 'big' scenarios also 766/767/768-byte keys and 62999/63000/63001-byte values); every scenario is run as one case on each of mem, leveldb, kvfile, sqlite and buffer(mem,mem) with maxBuffer -1, 0, 40 and 1000000; each answer is compared with the Lean model (correspondence) and with a reference map (oracle). distinct = distinct (implementation, op sequence) with at least 2 mutations and 2 reads"
+
+	cfgs := []implCfg{{"mem", ""}, {"leveldb", ""}, {"kvfile", ""}, {"sqlite", ""},
+		{"buffer", "-1"}, {"buffer", "0"}, {"buffer", "40"}, {"buffer", "1000000"}}
+
+	// hand-written cases: the witnesses of the findings and the boundary sizes, on every implementation
+	fixed := [][]string{
+		// F-C10-1 (fixed): empty key on one side, another key on the other side
+		{"set 61 01", "flush", "set - 02", "dump", "find - -", "find - 62"},
+		{"set - 01", "flush", "set 61 02", "dump", "find - -", "find - 62", "get -"},
+		{"set - 01", "set 61 02", "flush", "set - 03", "set 62 04", "find - -", "del -", "find - -"},
+		// buffer shadowing, delete-through
+		{"set 61 01", "flush", "set 61 02", "dump", "get 61", "find - -", "del 61", "get 61", "find - -", "dump"},
+		{"batch s 61 01 d 61 s 62 02 s 62 03 d 63", "find - -", "flush", "batch d 62 s 62 04 s 61 05 d 61", "find - -", "reopen", "find - -"},
+		// limits
+		{"set 00*767 aa", "set 00*768 bb", "set 61 cc*63000", "set 62 cc*63001", "batch s 01*768 01 s 63 dd*63001 s 64 dd*63000 s 01*767 02",
+			"find - -", "get 00*768", "get 62", "get 63", "reopen", "find - -", "del 00*768", "del 00*767", "find - 61"},
+		// ranges: start > end, start == end, end empty, prefixes
+		{"set 61 01", "set 6100 02", "set 61ff 03", "set 62 04", "set ff 05", "set ffff 06", "find 62 61", "find 61 61", "find 61 -", "find - 61",
+			"find 6100 61ff", "find 61 6100", "find ff -", "find ffff -", "find ffff00 -", "find - 00", "find 61ff 62"},
+	}
+	for i, lines := range fixed {
+		for _, c := range cfgs {
+			var ops []op
+			for _, l := range lines {
+				pc, ok := parse(strings.Fields(l))
+				if !ok {
+					panic("c10: bad fixed line " + l)
+				}
+				ops = append(ops, op{name: pc.name, a: pc.a, b: pc.b, muts: pc.muts})
+			}
+			g.runCase(fmt.Sprintf("fixed-%d", i), c, ops)
+		}
+	}
+	r.Sample(map[string]any{"kind": "fixed", "ops": fixed[0]})
+
+	nScen, nOps, nBig := 24, 45, 4
+	if r.Thorough() {
+		nScen, nOps, nBig = 260, 70, 40
+	}
+	for i := 0; i < nScen+nBig; i++ {
+		big := i >= nScen
+		ops := g.scenario(nOps/2+g.rnd.Intn(nOps), big)
+		label := "scenario"
+		if big {
+			label = "big"
+		}
+		for _, c := range cfgs {
+			g.runCase(fmt.Sprintf("%s-%d", label, i), c, ops)
+		}
+		if i < 2 {
+			var ls []string
+			for _, o := range ops[:6] {
+				ls = append(ls, short(o.line()))
+			}
+			r.Sample(map[string]any{"kind": label, "first_ops": ls})
+		}
+	}
+
+	g.malformedCase(implCfg{"mem", ""})
+	g.malformedCase(implCfg{"buffer", "40"})
+
+	probes(r)
+}
+
+// probes re-executes the witnesses of the recorded findings directly on the real code.
+func probes(r *hk.Run) {
+	// F-C10-1 (fixed by a9fb580): (a) empty key in the buffer, "a" in the backing store: Find lost "a";
+	// (b) empty kvfile backing store, two buffered keys: Find panicked in kvfile's iterator.
+	lost := hk.Guard(func() string {
+		back := sorted.NewMemoryKeyValue()
+		back.Set("a", "1")
+		b := buffer.New(sorted.NewMemoryKeyValue(), back, 1<<20)
+		b.Set("", "2")
+		rows, st := scan(b.Find("", ""))
+		return st + " " + strings.Join(rows, " ")
+	})
+	pan := hk.Guard(func() string {
+		dir, err := os.MkdirTemp("", "pkh-c10-probe-")
+		if err != nil {
+			return "err"
+		}
+		defer os.RemoveAll(dir)
+		back, err := kvfile.NewStorage(filepath.Join(dir, "x.kv"))
+		if err != nil {
+			return "err"
+		}
+		defer back.Close()
+		b := buffer.New(sorted.NewMemoryKeyValue(), back, 1<<20)
+		b.Set("a", "1")
+		b.Set("b", "2")
+		rows, st := scan(b.Find("", ""))
+		return st + " " + strings.Join(rows, " ")
+	})
+	r.ImplOnly("probe")
+	r.ImplOnly("probe")
+	okLost, okPan := lost == "ok -=32 61=31", pan == "ok 61=31 62=32"
+	r.Probe("F-C10-1", !okLost || !okPan, fmt.Sprintf("buffer{\"\"}+backing{a}: %q; buffer{a,b}+empty kvfile backing: %q", lost, pan))
+	if !okLost {
+		r.Fail("buffer:find-empty-key-loses-row", "buffer{\"\"} over backing{a}", "ok -=32 61=31", lost, []string{"open buffer 1000", "set 61 31", "flush", "set - 32", "find - -"})
+	}
+	if !okPan {
+		r.Fail("buffer:find-overruns-exhausted-backing-iterator", "buffer{a,b} over an empty kvfile store", "ok 61=31 62=32", pan, nil)
+	}
+}
